@@ -84,10 +84,25 @@ def run(R):
     for m in dom.values:
         removed = pruned_edges(vs, var, dom, m)
         reach = vs.cfg.reachable(removed_edges=removed, follow_exc=False)
+        # path-sensitive refinement: under this signature type, locals that are None / not None on the path decide the tests on them
+        # (a dispatch helper that returns `None` for "no scheme" and a pair of functions otherwise)
+        def _atom(e, m=m):
+            if isinstance(e, ast.Compare) and len(e.ops) == 1 and isinstance(e.ops[0], (ast.Eq, ast.NotEq)) and ast.unparse(e.left) == var:
+                member = ast.unparse(e.comparators[0]).split('.')[-1]
+                if member in dom.values:
+                    return (member == m) == isinstance(e.ops[0], ast.Eq)
+            return None
+        reach = reach & explore(vs, _atom)
         outs = []
         for r in returns(vs):
             if r.id in reach:
                 v = r.ast.value
+                if isinstance(v, ast.Call) and isinstance(v.func, ast.Name) and vs.cfg.defs_reaching(r, v.func.id):
+                    # the function called is a local: which function it is under this signature type (carried in a tuple by the dispatch)
+                    srcs_ = vs.sources(r, v.func, live=reach)
+                    names_ = sorted({s_.expr if s_.kind == 'free' else (ast.unparse(s_.expr).split('.')[-1] if s_.kind == 'expr' else '?') for s_ in srcs_})
+                    outs += names_ or ['?']
+                    continue
                 outs.append(ast.unparse(v.func).split('.')[-1] if isinstance(v, ast.Call) else ('None' if v is None else ast.unparse(v)))
         if vs.cfg.falloff.id in reach:
             outs.append('<falls off: None>')
@@ -186,6 +201,16 @@ def run(R):
                 probs.append((f'key material comes from {t}', s.node.ast if s.node.ast is not None else va.f.node))
     # cert_name = key locator name of the packet being validated
     cds = [v for n_ in va.cfg.nodes for (nm, v) in va.cfg.defs_of(n_) if nm == 'cert_name']
+    # (a `cert_name = None` that a following `if cert_name is None: return False` turns into a rejection is the "no key locator" answer of an
+    #  expanded helper, not a name)
+    none_defs = [v for v in cds if isinstance(v, ast.Constant) and v.value is None]
+    if none_defs:
+        nt = [t for t in va.cfg.nodes if t.kind == 'test' and ast.unparse(t.ast) in ('cert_name is None', 'cert_name is not None', 'cert_name', 'not cert_name')]
+        okn = bool(nt) and all(const_bool(r_.ast.value) is False for t in nt
+                               for r_ in returns(va) if r_.id in reach_from_succ(va.cfg, t, ast.unparse(t.ast) in ('cert_name is None', 'not cert_name'),
+                                                                                   removed_nodes={x.id for x in va.cfg.nodes if x.kind == 'test' and x is not t}, follow_exc=False))
+        if okn:
+            cds = [v for v in cds if v not in none_defs]
     if not cds or any(not (isinstance(v, ast.AST) and alias_text(va, v) == 'sig_ptrs.signature_info.key_locator.name') for v in cds):
         probs.append(('cert_name is not the key locator name of the packet', va.f.node))
     # storage.save only with (cert_name, fetched bits)
@@ -201,8 +226,9 @@ def run(R):
         R.ok('C14.MPT.1', inst, site(va, final[0][1]), f'{len(returns(va))} returns; key sources anchor/storage/fetch(next_level)')
     # an unsigned packet / missing key locator is rejected before anything else
     inst = va.qual + ' :: missing key locator rejected'
-    first = [t for t in va.cfg.nodes if t.kind == 'test' and 'key_locator' in ast.unparse(t.ast) or (t.kind == 'test' and ast.unparse(t.ast) == 'sig_ptrs.signature_info')]
-    dnode = [n_ for n_ in va.cfg.nodes if any(nm == 'cert_name' for nm, _ in va.cfg.defs_of(n_))]
+    first = [t for t in va.cfg.nodes if t.kind == 'test' and not isinstance(t.ast, ast.Compare)
+             and ('key_locator' in alias_text(va, t.ast) or alias_text(va, t.ast) == 'sig_ptrs.signature_info')]
+    dnode = [n_ for n_ in va.cfg.nodes if any(nm == 'cert_name' and not (isinstance(v_, ast.Constant) and v_.value is None) for nm, v_ in va.cfg.defs_of(n_))]
     if dnode and first and all(dnode[0].id not in va.cfg.reachable(removed_edges={(t.id, True)}) for t in first):
         R.ok('C14.MPT.1', inst, site(va, first[0].ast), f'{len(first)} presence tests')
     else:
@@ -237,13 +263,25 @@ def run(R):
         elif lv.cfg.exit.id in lv.cfg.reachable(removed_nodes={nl[0].id}, follow_exc=False):
             probs.append(('next_level is not set on every path', nl[0].ast))
         cas = [c for (n_, c) in calls_in_ctx(lv) if ast.unparse(c.func).endswith('CascadeChecker')]
-        if cas and [ast.unparse(a) for a in cas[0].args] != ['app', 'trust_anchor', 'storage']:
+        def _from_param(a_, pname):
+            if ast.unparse(a_) == pname:
+                return True
+            ss_ = lv.sources(lv.node_of(cas[0]), a_) if isinstance(a_, ast.Name) else []
+            return bool(ss_) and all((s_.kind == 'param' and s_.expr == pname) or
+                                     (pname == 'storage' and s_.kind == 'expr' and isinstance(s_.expr, ast.Call) and ast.unparse(s_.expr.func).endswith('MemoryKeyStorage'))
+                                     for s_ in ss_)
+        if cas and not (len(cas[0].args) == 3 and all(_from_param(a_, p_) for a_, p_ in zip(cas[0].args, ('app', 'trust_anchor', 'storage')))):
             probs.append((f'cascade checker built from {norm(cas[0])}', cas[0]))
     if probs:
         for (what, construct) in probs:
             R.fail('C14.PRV.1', inst, LV, construct if not isinstance(construct, FuncT) else 'def lvs_validator', what, site(lv, construct))
     else:
         R.ok('C14.PRV.1', inst, site(lv, unions[0][1]))
+    def _kl_name(cx_, node_, e_):
+        """every binding of e_ that is not None is <..>.key_locator.name"""
+        ss_ = [s_ for s_ in cx_.sources(node_, e_) if not (s_.kind == 'expr' and isinstance(s_.expr, ast.Constant) and s_.expr.value is None)] \
+            if isinstance(e_, ast.Name) else []
+        return bool(ss_) and all(s_.kind == 'expr' and ast.unparse(s_.expr).endswith('.key_locator.name') for s_ in ss_)
     vn = ctx(R, LV + '.<validate_name>')
     inst = vn.qual + ' :: schema signing check'
     probs = []
@@ -252,7 +290,8 @@ def run(R):
         if cb is False:
             continue
         v = r.ast.value
-        if not (isinstance(v, ast.Call) and ast.unparse(v.func) == 'checker.check' and [ast.unparse(a) for a in v.args] == ['name', 'cert_name']):
+        if not (isinstance(v, ast.Call) and alias_text(vn, v.func) == 'checker.check' and [alias_text(vn, a) for a in v.args][:1] == ['name'] and len(v.args) == 2
+                and (alias_text(vn, v.args[1]) == 'cert_name' or 'key_locator.name' in full_text(vn, v.args[1]) or _kl_name(vn, r, v.args[1]))):
             probs.append((f'`{norm(r.ast)}` is not checker.check(name, cert_name)', r.ast))
     # the certificate name handed to the schema check: every binding that can reach the call (bindings to None excluded by the None-test
     # that guards it) is the key locator name of the packet
@@ -335,10 +374,17 @@ def run(R):
         # the anchor's name: first element of parse_data(trust_anchor)
         nv = [nm for n_ in sc.cfg.nodes for (nm, v) in sc.cfg.defs_of(n_) if isinstance(v, tuple) and len(v) == 3 and v[0] == 'unpack' and v[2] == 0
               and isinstance(v[1], ast.AST) and ast.unparse(v[1]) == 'parse_data(trust_anchor)']
+        if len(nv) != 1:
+            # ... or its first element taken by subscript: `name = parse_data(trust_anchor)[0]`
+            nv = [nm for n_ in sc.cfg.nodes for (nm, v) in sc.cfg.defs_of(n_) if isinstance(v, ast.Subscript) and ast.unparse(v) == 'parse_data(trust_anchor)[0]']
         nv = nv[0] if len(nv) == 1 else 'cert_name'
+
+        def _fills(tree):
+            return any((isinstance(x, ast.Call) and callee_attr(x) in ('append', 'extend') and ast.unparse(x.func.value) == mv) or
+                       (isinstance(x, ast.AugAssign) and ast.unparse(x.target) == mv) or
+                       (isinstance(x, ast.Assign) and any(ast.unparse(t_) == mv for t_ in x.targets)) for x in ast.walk(tree))
         built = [n_ for n_ in sc.cfg.nodes if n_.ast is not None and f'checker.match({nv})' in ast.unparse(n_.ast) and (
-            any(nm == mv for (nm, _) in sc.cfg.defs_of(n_)) or
-            any(isinstance(x, ast.Call) and callee_attr(x) in ('append', 'extend') and ast.unparse(x.func.value) == mv for x in ast.walk(n_.ast)))]
+            any(nm == mv for (nm, _) in sc.cfg.defs_of(n_)) or _fills(n_.stmt if n_.stmt is not None else n_.ast))]
         oksub = full_text(sc, tsub[0].ast.func.value) == 'checker.root_of_trust()' and bool(built)
     tnon = [t for t in sc.cfg.nodes if t.kind == 'test' and mv is not None and ast.unparse(t.ast) == mv]
     if not tfn or sc.cfg.exit.id in reach_from_succ(sc.cfg, tfn[0], False, follow_exc=False):
@@ -414,6 +460,22 @@ def run(R):
         for meth, lst in keys.items():
             for (mx, n_, k, pname) in lst:
                 t = full_text(mx, k)
+                kk = inline_ast(mx, k)
+                if isinstance(kk, ast.Call) and self_attr(kk.func) and len(kk.args) == 1:
+                    # a one-expression helper method of the store (`def _key(self, name): return Name.to_bytes(name)`) used in expression position
+                    hq = f'{m_}.{c_}.{kk.func.attr}'
+                    hf = P.funcs.get(hq) or (getattr(P, 'absorbed_funcs', {}) or {}).get(hq)
+                    body_ = [b_ for b_ in hf.node.body if not (isinstance(b_, ast.Expr) and isinstance(b_.value, ast.Constant))] if hf else []
+                    hps = [a_.arg for a_ in hf.node.args.args if a_.arg not in ('self', 'cls')] if hf else []
+                    if len(body_) == 1 and isinstance(body_[0], ast.Return) and len(hps) == 1:
+                        hp = hps[0]
+                        import copy as _cp
+
+                        class _S(ast.NodeTransformer):
+                            def visit_Name(self, n):
+                                return _cp.deepcopy(kk.args[0]) if n.id == hp else n
+                        k = _S().visit(_cp.deepcopy(body_[0].value))
+                        t = full_text(mx, k)
                 texts.setdefault(meth, set()).add(t.replace(pname or '\0', '<name>'))
                 cut = [y for y in ast.walk(inline_ast(mx, k)) if isinstance(y, ast.Subscript) and isinstance(y.value, ast.Name) and y.value.id == pname]
                 if pname is None or pname not in {y.id for y in ast.walk(inline_ast(mx, k)) if isinstance(y, ast.Name)}:
